@@ -246,7 +246,9 @@ std::string check_residual(const std::vector<cx> &Ahat, int n, const std::vector
             ld bound = c1 * n * u * gx + c2 * n * u * (aax + std::abs(b[i])) + tiny;
             // with refinement the returned X is the refined iterate: its residual is bounded by the reported
             // backward error (plus the rounding of evaluating a residual, already in the c2 term), not by |L||U|
-            if (berr) bound += (ld)berr[r] * (1 + 8 * u) * (aax + std::abs(b[i]) + tiny * n * 1024);
+            // complex: the library measures |r_i|, |a_ij|, |x_j| as |re|+|im| when it forms BERR, so in moduli the same
+            // statement reads |r_i| <= BERR * (2 * sum |a||x| + sqrt(2) |b|): factor 2
+            if (berr) bound += (K::cplx ? 2 : 1) * (ld)berr[r] * (1 + 4 * (n + 2) * u) * (aax + std::abs(b[i]) + tiny * n * 1024);
             if (max_ratio && bound > 0) *max_ratio = std::max(*max_ratio, res / bound);
             if (!(res <= bound)) {
                 snprintf(buf, sizeof buf, "residual of rhs %d row %d: %.3Le > bound %.3Le (trans %d)", r, i, res, bound, trant);
